@@ -59,4 +59,45 @@ theorem init_attrs : Gen.initAttrs =
     ["_logger", "atCommandActions", "enteringExcludedRegionGcode", "exitingExcludedRegionGcode",
      "extendedExcludeGcodes", "g90InfluencesExtruder", "gcodeParser"] := rfl
 
+/-! ## What a new print and new objects start from
+
+The source text of the values assigned by `resetState`, `Position()`, the defaults of
+`AxisPosition(...)` and `RetractionState(...)`, next to the values the model's constructors use. -/
+
+theorem resetState_values : Gen.resetStateValues =
+    [("position", "Position()"), ("feedRate", "0"), ("feedRateUnitMultiplier", "1"),
+     ("_exclusionEnabled", "True"), ("excluding", "False"), ("excludeStartTime", "None"),
+     ("numExcludedCommands", "0"), ("numCommands", "0"), ("lastRetraction", "None"),
+     ("lastPosition", "None"), ("pendingCommands", "OrderedDict()")] := rfl
+
+theorem position_init_values : Gen.positionInitValues =
+    [("X_AXIS", "AxisPosition()"), ("Y_AXIS", "AxisPosition()"), ("Z_AXIS", "AxisPosition()"),
+     ("E_AXIS", "AxisPosition(0)")] := rfl
+
+theorem axis_default_values : Gen.axisDefaultValues =
+    [("current", "None"), ("homeOffset", "0.0"), ("offset", "0.0"), ("absoluteMode", "True"),
+     ("unitMultiplier", "1.0")] := rfl
+
+theorem retraction_init_values : Gen.retractionInitValues =
+    [("recoverExcluded", "False"), ("allowCombine", "True")] := rfl
+
+section
+variable {α : Type} [Add α] [Sub α] [Mul α] [Div α] [Neg α] [LT α] [LE α] [BEq α]
+  [OfNat α 0] [OfNat α 1] [DecidableLT α] [DecidableLE α] [MathOps α]
+
+/-- the model's `resetState`: the same values -/
+theorem model_reset_values (rs : List (Region α)) :
+    (FState.reset rs).position = Position.init ∧ (FState.reset rs).feedRate = 0 ∧
+    (FState.reset rs).feedRateUnitMultiplier = 1 ∧ (FState.reset rs).exclusionEnabled = true ∧
+    (FState.reset rs).excluding = false ∧ (FState.reset rs).lastRetraction = none ∧
+    (FState.reset rs).lastPosition = none ∧ (FState.reset rs).pendingCommands = [] :=
+  ⟨rfl, rfl, rfl, rfl, rfl, rfl, rfl, rfl⟩
+
+/-- the model's `Position()` / `AxisPosition(current)`: the same values -/
+theorem model_position_init :
+    (Position.init : Position α) = { x := Axis.init none, y := Axis.init none, z := Axis.init none, e := Axis.init (some 0) } ∧
+    ∀ c : Option α, Axis.init c = { current := c, homeOffset := 0, offset := 0, absoluteMode := true, unitMultiplier := 1 } :=
+  ⟨rfl, fun _ => rfl⟩
+end
+
 end ERP
